@@ -489,6 +489,10 @@ class InterpBase:
                 pass  # A7
 
             def f(s2, itv):
+                if not self.is_concrete_iterable(s2, itv):
+                    if len(e.generators) != 1 or g.ifs:
+                        raise Unsupported("comprehension over abstract iterable with filter/nesting", e)
+                    return self._comp_abstract(e, g, s2, cfr, itv, elt_fn)
                 items = self.iter_concrete(s2, itv, e)
                 results = [(s2, [])]
                 for item in items:
@@ -528,20 +532,73 @@ class InterpBase:
 
         return seq(gen(0, st), finish)
 
+    def _comp_abstract(self, e, g, st, cfr, itv, elt_fn):
+        """[elt for x in S] over a sequence of symbolic length: the element is evaluated once
+        for a generic index i; the result array is defined by  forall j. res[j] = elt[i:=j]."""
+        from .values import sel, fresh_arr
+        seqv = self.as_sseq(st, itv, e)
+        i = z3.Int(fresh_name("ci"))
+        s1 = st.fork()
+        s1.assume(i >= 0, i < seqv.n)
+        out = []
+        normal = []
+        for s2, r in self.assign(g.target, sel(seqv.arr, seqv.k, i), s1, cfr):
+            if isinstance(r, Raised):
+                out.append((s2, r))
+                continue
+            for s3, v in elt_fn(s2, cfr):
+                if isinstance(v, Raised):
+                    out.append((s3, v))
+                else:
+                    normal.append((s3, v[0]))
+        if len(normal) != 1:
+            if not normal and out:
+                # every generic element raises; the empty sequence still returns normally
+                s0 = st
+                s0.assume(seqv.n == 0)
+                return out + [(s0, [])]
+            raise Unsupported("comprehension element forks on the generic element", e)
+        v = normal[0][1]
+        kind = self._kind_of_value(v, e)
+        arr = fresh_arr("comp", kind)
+        j = z3.Int(fresh_name("cj"))
+        eqs = self._elem_defs(arr, kind, j, v, i)
+        st.assume(z3.ForAll([j], z3.Implies(z3.And(0 <= j, j < seqv.n), z3.And(*eqs))))
+        st.assume(seqv.n >= 0)
+        res = SSeq(arr, seqv.n, kind)
+        return out + [(st, res)]
+
+    def _kind_of_value(self, v, node):
+        if isinstance(v, tuple):
+            return tuple(self._kind_of_value(x, node) for x in v)
+        if isinstance(v, (Ref, BoundMethod, Closure, SSeq)):
+            raise Unsupported("comprehension element is a heap value", node)
+        return kind_of(v)
+
+    def _elem_defs(self, arr, kind, j, v, i):
+        if isinstance(kind, tuple):
+            out = []
+            for a, k, x in zip(arr, kind, v):
+                out += self._elem_defs(a, k, j, x, i)
+            return out
+        return [z3.Select(arr, j) == z3.substitute(to_term(v, kind), (i, j))]
+
     def ev_ListComp(self, e, st, fr):
-        return self._comp(
-            e, st, fr,
-            lambda s, cfr: seq(self.ev(e.elt, s, cfr), lambda s2, v: [(s2, [v])]),
-            lambda s, vs: [(s, s.alloc(HList(items=list(vs))))],
-        )
+        def fin(s, vs):
+            if isinstance(vs, SSeq):
+                return [(s, s.alloc(HList(arr=vs.arr, n=vs.n, k=vs.k)))]
+            return [(s, s.alloc(HList(items=list(vs))))]
+
+        return self._comp(e, st, fr, lambda s, cfr: seq(self.ev(e.elt, s, cfr), lambda s2, v: [(s2, [v])]), fin)
 
     def ev_GeneratorExp(self, e, st, fr):
         # eager evaluation (assumption: element expressions are pure or order-insensitive)
-        return self._comp(
-            e, st, fr,
-            lambda s, cfr: seq(self.ev(e.elt, s, cfr), lambda s2, v: [(s2, [v])]),
-            lambda s, vs: [(s, tuple(vs))],
-        )
+        def fin(s, vs):
+            if isinstance(vs, SSeq):
+                return [(s, s.alloc(HIter(vs, 0, tag="generator")))]
+            return [(s, tuple(vs))]
+
+        return self._comp(e, st, fr, lambda s, cfr: seq(self.ev(e.elt, s, cfr), lambda s2, v: [(s2, [v])]), fin)
 
     def ev_SetComp(self, e, st, fr):
         return self._comp(
